@@ -211,6 +211,13 @@ def jobs(tier, seed):
             b = seed % blocks
             lo, hi = size * b // blocks, size * (b + 1) // blocks
             js.append(Job(f"n6_layered_{k}arcs_caps12_block{b}of{blocks}", hi - lo, _layered_chunk, (k, lo), describe="rotating block (VERIF_SEED) of the layered 6-node networks with capacities {1,2}"))
+    js.append(Job("n9_three_stages_232_unit", 2 ** len(ST232) * 2, _stage232_chunk, None, describe="9 nodes: source, stages of 2/3/2 nodes, sink; every subset of the 16 unit arcs, both adjacency orders"))
+    tsize = 3**9 * 64
+    if tier == "thorough":
+        js.append(Job("n8_transport_3x3_caps12", tsize, _transport33_chunk, 0, describe="3 suppliers x 3 consumers, outer capacities {1,2}, inner arcs absent/1/2"))
+    else:
+        b = seed % 8
+        js.append(Job(f"n8_transport_3x3_caps12_block{b}of8", tsize // 8, _transport33_chunk, b * (tsize // 8), describe="rotating 1/8 block (VERIF_SEED) of: 3 suppliers x 3 consumers, outer capacities {1,2}, inner arcs absent/1/2"))
     js.append(Job("n6_antiparallel_2out_2in_caps12", 36 * len(AP_MIDDLES) * 256, _antiparallel_chunk, None, describe="6 nodes, two source arcs, two sink arcs, four middle arcs with at least one anti-parallel pair, capacities {1,2}: the smallest shape in which an augmentation partially cancels flow on the opposite arc"))
     if tier == "thorough":
         js.append(Job("n4_caps_absent012_st03", 4**12 * 4, _n4_chunk, (None, 0, 1, 2), describe="adds zero capacities: 4^12 graphs x 12 (s,t)"))
@@ -272,6 +279,45 @@ def _antiparallel_chunk(params, lo, hi):
         pairs = sorted([(0, x) for x in outs] + [(x, 5) for x in ins] + list(mid))
         arcs = [(u, v, 1 + (code >> i & 1)) for i, (u, v) in enumerate(pairs)]
         run_one(r, 6, arcs, 0, 5, 0, False)
+        if len(r["violations"]) >= 40 or r["counters"]["hangs"] >= 2:
+            r["capped"] = True
+            break
+    return r
+
+
+ST232 = [(0, 1), (0, 2)] + [(a, b) for a in (1, 2) for b in (3, 4, 5)] + [(b, c) for b in (3, 4, 5) for c in (6, 7)] + [(6, 8), (7, 8)]
+
+
+def _stage232_chunk(params, lo, hi):
+    """9 nodes in three stages of 2, 3 and 2 nodes between source 0 and sink 8, every subset of the 16 possible unit arcs,
+    adjacency lists in arc order and reversed: augmenting paths of 4 arcs that later have to be undone over residual arcs
+    at two different stages (paths of 6 and 8 arcs). index = subset*2 + order"""
+    r = new_result()
+    for idx in range(lo, hi):
+        code = idx // 2
+        arcs = [(u, v, 1) for b, (u, v) in enumerate(ST232) if code >> b & 1]
+        run_one(r, 9, arcs, 0, 8, idx % 2, False)
+        if len(r["violations"]) >= 40 or r["counters"]["hangs"] >= 2:
+            r["capped"] = True
+            break
+    return r
+
+
+def _transport33_chunk(params, lo, hi):
+    """transport networks: source 0, suppliers 1..3, consumers 4..6, sink 7; supplier and consumer arcs with capacity 1 or 2,
+    each of the nine supplier-consumer arcs absent / capacity 1 / capacity 2: the same residual arc is wanted by several
+    augmenting paths. index (+offset) = (inner*8 + supply_code)*8 + demand_code"""
+    off = params
+    r = new_result()
+    inner_pairs = [(i, j) for i in (1, 2, 3) for j in (4, 5, 6)]
+    for idx in range(lo + off, hi + off):
+        dc = idx % 8
+        sc = idx // 8 % 8
+        ds = digits(idx // 64, 3, 9)
+        arcs = [(0, i, 1 + (sc >> (i - 1) & 1)) for i in (1, 2, 3)]
+        arcs += [(u, v, d) for (u, v), d in zip(inner_pairs, ds) if d]
+        arcs += [(j, 7, 1 + (dc >> (j - 4) & 1)) for j in (4, 5, 6)]
+        run_one(r, 8, arcs, 0, 7, idx % 2, False)
         if len(r["violations"]) >= 40 or r["counters"]["hangs"] >= 2:
             r["capped"] = True
             break
